@@ -90,12 +90,19 @@ pub fn child(args: &[&str], stdin_data: &str, timeout_ms: u64) -> (String, Strin
     let mut si = ch.stdin.take().unwrap();
     let _ = si.write_all(stdin_data.as_bytes());
   }
+  // the output is read while the child runs: a child that writes more than the pipe holds would otherwise wait for
+  // a reader for ever (and be taken for a run into the time limit)
+  let mut so = ch.stdout.take().unwrap();
+  let reader = std::thread::spawn(move || {
+    let mut out = Vec::new();
+    let _ = so.read_to_end(&mut out);
+    String::from_utf8_lossy(&out).to_string()
+  });
   let start = std::time::Instant::now();
   loop {
     match ch.try_wait() {
       Ok(Some(status)) => {
-        let mut out = String::new();
-        let _ = ch.stdout.take().unwrap().read_to_string(&mut out);
+        let out = reader.join().unwrap_or_default();
         let desc = if status.success() {
           "ok".to_string()
         } else {
@@ -119,7 +126,9 @@ pub fn child(args: &[&str], stdin_data: &str, timeout_ms: u64) -> (String, Strin
         if start.elapsed().as_millis() as u64 > timeout_ms {
           let _ = ch.kill();
           let _ = ch.wait();
-          return ("timeout".to_string(), String::new());
+          // what the child wrote before it was stopped (callers that ignore it lose nothing)
+          let out = reader.join().unwrap_or_default();
+          return ("timeout".to_string(), out);
         }
         std::thread::sleep(std::time::Duration::from_millis(2));
       }
